@@ -284,14 +284,51 @@ func (c *chooser) GetDatabaseCfg(string) (models.Database, bool) {
 
 // plainChooser implements only flow.NodeChoose (so RootMetricContext.MakePlan skips
 // calcTimeRangeAndInterval, which needs a broker state manager).
-type plainChooser struct{ targets []string }
+// plans: one physical plan per entry (root / federated deployment: Choose answers one plan per
+// broker cluster; MakePlan calls addRequests once per plan).
+type plainChooser struct{ plans [][]string }
 
 func (c *plainChooser) Choose(db string, _ int) ([]*models.PhysicalPlan, error) {
-	p := &models.PhysicalPlan{Database: db}
-	for _, t := range c.targets {
-		p.AddTarget(&models.Target{Indicator: t})
+	var out []*models.PhysicalPlan
+	for _, targets := range c.plans {
+		p := &models.PhysicalPlan{Database: db}
+		for _, t := range targets {
+			p.AddTarget(&models.Target{Indicator: t})
+		}
+		out = append(out, p)
 	}
-	return []*models.PhysicalPlan{p}, nil
+	return out, nil
+}
+
+// newOp is the op line that creates context id over these plans (`new` for one plan).
+func newOp(id int, plans [][]string) string {
+	if len(plans) == 1 {
+		return fmt.Sprintf("new %d %d", id, len(plans[0]))
+	}
+	toks := []string{"newp", fmt.Sprint(id)}
+	for _, p := range plans {
+		toks = append(toks, fmt.Sprint(len(p)))
+	}
+	return strings.Join(toks, " ")
+}
+
+// splitPlans places the targets into 1-3 physical plans as a function of the delivery order
+// (deterministic; every plan non-empty): about two thirds of the contexts with >= 2 targets get
+// several plans.
+func splitPlans(names []string, perm []int) [][]string {
+	n := len(names)
+	if n < 2 || len(perm) != n || (perm[0]+n)%3 == 0 {
+		return [][]string{names}
+	}
+	p := 2 + perm[n-1]%2
+	if p > n {
+		p = n
+	}
+	plans := make([][]string, p)
+	for j, k := range perm {
+		plans[j%p] = append(plans[j%p], names[k])
+	}
+	return plans
 }
 
 type sliceGetter map[uint16]float64
@@ -646,6 +683,11 @@ type Root struct {
 // NewRoot builds the real root context and runs its real MakePlan (expectResults /
 // tolerantNotFounds are set by addRequests from the plan's targets).
 func NewRoot(w *World, q *QueryDef, targets []string) (*Root, error) {
+	return NewRootPlans(w, q, [][]string{targets})
+}
+
+// NewRootPlans: the real root over several physical plans (real MakePlan: one addRequests per plan).
+func NewRootPlans(w *World, q *QueryDef, plans [][]string) (*Root, error) {
 	st := q.statement(w)
 	deps := &querycontext.RootMetricContextDeps{
 		Ctx:         context.Background(),
@@ -653,7 +695,7 @@ func NewRoot(w *World, q *QueryDef, targets []string) (*Root, error) {
 		Database:    database,
 		CurrentNode: models.StatelessNode{HostIP: "1.1.1.1", GRPCPort: 9000},
 		Statement:   st,
-		Choose:      &plainChooser{targets: targets},
+		Choose:      &plainChooser{plans: plans},
 	}
 	r := querycontext.NewRootMetricContext(deps)
 	r.SetTracker(newTracker())
